@@ -2,12 +2,15 @@
 \* The sandboxed world shared by MC_Loader (exhaustive check), Gen_Loader (inputs for the real loader) and Trace_Loader (judge):
 \* alphabet of IRI segments, directories and files below the sandbox root, cache configurations.
 EXTENDS Naturals, Sequences, FiniteSets
-Alphabet == {"", ".", "..", "a", "sub", "srv", "etc", "ok", "ok.ttl", "in.ttl", "secret", "secret.ttl", "pw", "%2e%2e", "..ttl", "subok.ttl"}
-DotNamesC == {".", "..", "ok.ttl", "in.ttl", "secret.ttl", "..ttl", "subok.ttl"}
+Alphabet == {"", ".", "..", "a", "sub", "srv", "etc", "ok", "ok.ttl", "in.ttl", "secret", "secret.ttl", "pw", "%2e%2e", "..ttl", "subok.ttl", "a.ttl"}
+DotNamesC == {".", "..", "ok.ttl", "in.ttl", "secret.ttl", "..ttl", "subok.ttl", "a.ttl"}
 \* /srv/a (cache) /srv/a/sub (cache, nested) /srv/b (cache) /srv/secret.ttl /etc/pw.ttl  - files are named by their path
 DirsC == {<<"srv">>, <<"srv", "a">>, <<"srv", "a", "sub">>, <<"srv", "b">>, <<"etc">>, <<"srv", "a", "%2e%2e">>}
 FilesC == {<<"srv", "a", "ok.ttl">>, <<"srv", "a", "sub", "in.ttl">>, <<"srv", "secret.ttl">>, <<"etc", "pw.ttl">>, <<"srv", "b", "ok.ttl">>,
-           <<"srv", "a", "%2e%2e", "ok.ttl">>, <<"srv", "a", "secret.ttl">>, <<"srv", "a", "..ttl">>}
+           <<"srv", "a", "%2e%2e", "ok.ttl">>, <<"srv", "a", "secret.ttl">>, <<"srv", "a", "..ttl">>,
+           \* files NEXT to a cache directory whose name starts with the directory's name (<dir>.ttl: what "the directory plus an extension" or a
+           \* comparison of path strings instead of path components would reach)
+           <<"srv", "a.ttl">>, <<"srv", "b.ttl">>, <<"srv", "a", "sub.ttl">>}
 \* What the application ATTEMPTS to configure (LocalLoader::new / add, in this order). A mapping is valid - and only then
 \* configured - when the namespace ends with '/', and the path is absolute and names an existing directory (LocalLoader::check);
 \* an application that logs a rejected mapping and carries on keeps using the same loader.
